@@ -44,11 +44,12 @@ def run(R, tier):
             good = bool(ps)
             n_ok = 0
             for p in ps:
-                dim = [e for e in p.r.trace if e.kind == "assume" and e.name == "sym" and isinstance(e.args[0][2], tuple) and e.args[0][2][0] == "binop" and e.args[0][2][1] == "Eq" and "dimension" in repr(e.args[0][2])]
-                if len(dim) != 1 or dim[0].args[0][2][3] != ("K", n):
+                dim = [e for e in p.r.trace if e.kind == "assume" and e.name == "sym" and isinstance(e.args[0][2], tuple) and e.args[0][2][0] == "binop" and e.args[0][2][1] in ("Eq", "Ne") and "dimension" in repr(e.args[0][2])]
+                if len(dim) != 1 or ("K", n) not in (dim[0].args[0][2][3], dim[0].args[0][2][2]):
                     good = False
                     continue
-                if dim[0].args[1] is False:
+                dim_matches = dim[0].args[1] if dim[0].args[0][2][1] == "Eq" else (not dim[0].args[1])
+                if dim_matches is False:
                     good = good and p.outcome.startswith("Err(") and p.count("next") == 0
                     continue
                 iters = [e for e in p.calls if e.name.endswith("IntoIterator::into_iter")]
@@ -107,7 +108,8 @@ def run(R, tier):
         consts = LX.byte_constants(u, [b]) | {ord(c) for c in ",+-.:"}
         classes = LX.byte_classes(consts)
         models = dict(M.BYTE_MODELS)
-        engn = fdai.Engine(P, u, inline=lambda n, r: r.endswith(("error::Error::new", "error::Error::extended")), models=models)
+        _inh = D.inline_inherent(("scpi::parser::expression::numeric_list::",), exclude=(NL + "NumericList::read_numeric_data",))
+        engn = fdai.Engine(P, u, inline=lambda n, r: r.endswith(("error::Error::new", "error::Error::extended")) or (not r.endswith("::read_numeric_data") and _inh(n, r)), models=models)
         bad = []
         n_rows = 0
         for cls in classes + [[]]:
